@@ -106,7 +106,11 @@ pub fn run(ctx: &Ctx) -> Report {
         }
     }
     let variant = ctx.variant.clone();
-    par_run(&cases, ctx.threads, |_, c, rep| {
+    let mut rep12 = Report::new();
+    if ctx.variant == "v3" && ctx.only_panel.as_deref().map(|p| p == "epd12in48b_v2").unwrap_or(true) {
+        crate::props::p12checks::c09(&mut rep12, ctx.tier_thorough);
+    }
+    let mut out = par_run(&cases, ctx.threads, |_, c, rep| {
         let spec = c.spec;
         let syms = syms(spec);
         rep.eval(spec.name);
@@ -133,5 +137,7 @@ pub fn run(ctx: &Ctx) -> Report {
                 rep.fail(Failure { panel: spec.name.into(), entry, class, tags, detail: format!("{} | minimal history: {} | seen in: {}", detail, ops_short(&min_ops), ops_short(&ops)), case: case_json(spec, &variant, &min_ops) });
             }
         }
-    })
+    });
+    out.merge(rep12);
+    out
 }
